@@ -15,3 +15,40 @@ Theorem C14_sql_comment_lines_prefixed :
     split_on cLF body = map (fun cl => s2l "--" ++ cSP :: cl) (split_on cLF v).
 Proof. intros v. apply comment_lines. reflexivity. Qed.
 Print Assumptions C14_sql_comment_lines_prefixed.
+
+(* ---- every renderer that emits an element emits its comment with it: the output begins with the comment lines ---- *)
+From PyDBML Require Import Heap Classes RenderSQL RenderDBML CommentFacts.
+
+Theorem C14_sql_elements_emit_their_comment_first :
+  (forall i s, sql_enum_item i = Ok s -> truthy (ei_comment i) = true -> exists body, s = comment_to_sql (fstr (ei_comment i)) ++ body)
+  /\ (forall h e s, sql_enum h e = Ok s -> truthy (e_comment e) = true -> exists body, s = comment_to_sql (fstr (e_comment e)) ++ body)
+  /\ (forall h c s, sql_column h c = Ok s -> truthy (c_comment c) = true -> exists body, s = comment_to_sql (fstr (c_comment c)) ++ body)
+  /\ (forall h i s, sql_index h i = Ok s -> truthy (i_comment i) = true -> exists body, s = comment_to_sql (fstr (i_comment i)) ++ body)
+  /\ (forall h tid t s, sql_table h tid t = Ok s -> truthy (t_comment t) = true -> exists body, s = comment_to_sql (fstr (t_comment t)) ++ body).
+Proof.
+  exact (conj sql_enum_item_leads (conj sql_enum_leads (conj sql_column_leads (conj sql_index_leads sql_table_leads)))).
+Qed.
+Print Assumptions C14_sql_elements_emit_their_comment_first.
+
+(* a reference's SQL text passes through str.format (defect D5: a brace in the comment raises); for a comment without
+   braces the comment lines come out unchanged ahead of the statement, for the three directly rendered kinds *)
+Theorem C14_sql_reference_emits_its_comment_first :
+  forall h r s, direct_kind r = true -> nobrace (fstr (r_comment r)) -> sql_reference_simple h r = Ok s ->
+    truthy (r_comment r) = true -> exists body, s = comment_to_sql (fstr (r_comment r)) ++ body.
+Proof. exact sql_reference_simple_leads. Qed.
+Print Assumptions C14_sql_reference_emits_its_comment_first.
+
+Theorem C14_dbml_elements_emit_their_comment_first :
+  (forall h i s, dbml_enum_item h i = Ok s -> truthy (ei_comment i) = true -> exists body, s = comment_to_dbml (fstr (ei_comment i)) ++ body)
+  /\ (forall h e s, dbml_enum h e = Ok s -> truthy (e_comment e) = true -> exists body, s = comment_to_dbml (fstr (e_comment e)) ++ body)
+  /\ (forall rd h cid c s, dbml_column rd h cid c = Ok s -> truthy (c_comment c) = true -> exists body, s = comment_to_dbml (fstr (c_comment c)) ++ body)
+  /\ (forall h i s, dbml_index h i = Ok s -> truthy (i_comment i) = true -> exists body, s = comment_to_dbml (fstr (i_comment i)) ++ body)
+  /\ (forall rd h t s, dbml_table rd h t = Ok s -> truthy (t_comment t) = true -> exists body, s = comment_to_dbml (fstr (t_comment t)) ++ body)
+  /\ (forall h p s, dbml_project h p = Ok s -> truthy (p_comment p) = true -> exists body, s = comment_to_dbml (fstr (p_comment p)) ++ body)
+  /\ (forall h g s, dbml_group h g = Ok s -> truthy (g_comment g) = true -> exists body, s = comment_to_dbml (fstr (g_comment g)) ++ body)
+  /\ (forall h r s, ref_inline r = false -> dbml_reference h r = Ok s -> truthy (r_comment r) = true -> exists body, s = comment_to_dbml (fstr (r_comment r)) ++ body).
+Proof.
+  exact (conj dbml_enum_item_leads (conj dbml_enum_leads (conj dbml_column_leads (conj dbml_index_leads (conj dbml_table_leads
+        (conj dbml_project_leads (conj dbml_group_leads dbml_reference_leads))))))).
+Qed.
+Print Assumptions C14_dbml_elements_emit_their_comment_first.
